@@ -93,9 +93,9 @@ func (st *stand) begin() {
 	st.mu.Unlock()
 }
 
-func (st *stand) calls() []*fakech.Call { return st.h.DB.Calls()[st.callMark:] }
+func (st *stand) calls() []*fakech.Call      { return st.h.DB.Calls()[st.callMark:] }
 func (st *stand) subs() []*inssvc.Submission { return st.h.Rec.Subs()[st.subMark:] }
-func (st *stand) log() string               { return st.errlog.String()[st.logMark:] }
+func (st *stand) log() string                { return st.errlog.String()[st.logMark:] }
 
 var (
 	curMu sync.Mutex
